@@ -68,7 +68,7 @@ def run(chk, tier):
                 chk.ok("R09.1", key, {"fold": sorted(fs)[0][:120], "vm": sorted(vs)[0][:120]})
             else:
                 chk.bad("R09.1", key, "the compile-time evaluator computes %s but the emitted code evaluates to %s for the same operands (a program means something different when a variable is replaced by its literal)" % (sorted(fs), sorted(vs)), "rscel/src/compiler/compiler.rs (%s)" % m)
-    chk.floor("R09.1", "fold/VM pairs compared", npairs, 60)
+    chk.floor("R09.1", "fold/VM pairs compared", npairs, 40)
 
     # ---------------- R09.2
     for m in DROP_ROOTS + ["parse_member", "parse_primary"]:
